@@ -83,16 +83,44 @@ def has_bitfields(t) -> bool:
     return any(f.bits for f in t.__fields__)
 
 
-def sigs_any_mode(tree, ptr, endian):
-    """finding signatures of a mixed-mode definition: a signature counts when it matches under either alignment mode"""
+def flags_within(agg, own):
+    """the set of align flags that govern the aggregate `agg` (own flag given) and every aggregate below it"""
+    out = {own}
+    for f in agg[1]:
+        inner = defs.innermost(f["ty"])
+        if inner[0] in ("struct", "union"):
+            out |= flags_within(inner, f.get("eff_align", own))
+    return out
+
+
+def union_incomplete_mixed(tree2, top_align, ptr, endian) -> bool:
+    """signature of finding F9F10 for a hoisted (mixed-mode) tree: for a union whose whole subtree is governed by one align
+    flag the reference decides exactly; a union with two or more members whose subtree mixes flags counts as matching
+    (no reference knows its member layout)"""
+    def visit(agg, own):
+        if agg[0] == "union":
+            fl = flags_within(agg, own)
+            if len(fl) == 1:
+                if union_dump_incomplete(agg, refimpl.Cfg(endian, own, ptr, impl.CONSTS)):
+                    return True
+            elif len(agg[1]) >= 2:
+                return True
+        for f in agg[1]:
+            inner = defs.innermost(f["ty"])
+            if inner[0] in ("struct", "union") and visit(inner, f.get("eff_align", own)):
+                return True
+        return False
+    return visit(tree2, top_align)
+
+
+def sigs_mixed(tree2, top_align, ptr, endian):
+    """finding signatures of a mixed-mode definition (annotated tree from defs.hoist)"""
     out = []
-    for al in (False, True):
-        cfg = refimpl.Cfg(endian, al, ptr, impl.CONSTS)
-        if union_dump_incomplete(tree, cfg) and "F9F10" not in out:
-            out.append("F9F10")
-    if small_unit_bits(tree):
+    if union_incomplete_mixed(tree2, top_align, ptr, endian):
+        out.append("F9F10")
+    if small_unit_bits(tree2):
         out.append("F23")
-    if has_eof(tree):
+    if has_eof(tree2):
         out.append("F30")
     return out
 
